@@ -8,3 +8,46 @@ Lemma receive_concat vs1 vs2 acc :
     (do r <- receive (Some (CData acc)) (CData vs1); receive r (CData vs2))
     = Ok (Some (CData (acc ++ vs1 ++ vs2))).
 Proof. split; cbn; [reflexivity|]. rewrite app_assoc. reflexivity. Qed.
+
+(* ---- the lazy read on bytes (Model/LazyBytes.v) -------------------------------- *)
+From NpTdms Require Import Base.PySlice Model.LazyRead Model.LazyBytes Proofs.LazyTopProofs.
+
+Lemma lz_read_bytes_window data path svs dt offs len :
+  channel_view data path = Ok (svs, Some dt) ->
+  wf bytes svs = true -> 0 <= offs ->
+  (match len with None => True | Some l => 0 <= l end) ->
+  lz_read_bytes data path offs len =
+  Ok (match len with
+      | None => zskipn offs (full bytes svs)
+      | Some l => zfirstn l (zskipn offs (full bytes svs))
+      end).
+Proof.
+  intros Hv Hwf Ho Hl. unfold lz_read_bytes. rewrite Hv. cbn [bind].
+  apply (LazyTopProofs.window_correct bytes zero_value); assumption.
+Qed.
+
+Lemma lz_read_bytes_full data path svs dt :
+  channel_view data path = Ok (svs, Some dt) ->
+  wf bytes svs = true ->
+  lz_read_bytes data path 0 None = Ok (full bytes svs).
+Proof.
+  intros Hv Hwf. rewrite (lz_read_bytes_window data path svs dt 0 None Hv Hwf); [|lia|exact I].
+  reflexivity.
+Qed.
+
+(* every window is the window of the full lazy read *)
+Lemma lz_read_bytes_window_of_full data path svs dt offs len full_vals :
+  channel_view data path = Ok (svs, Some dt) ->
+  wf bytes svs = true -> 0 <= offs ->
+  (match len with None => True | Some l => 0 <= l end) ->
+  lz_read_bytes data path 0 None = Ok full_vals ->
+  lz_read_bytes data path offs len =
+  Ok (match len with
+      | None => zskipn offs full_vals
+      | Some l => zfirstn l (zskipn offs full_vals)
+      end).
+Proof.
+  intros Hv Hwf Ho Hl Hfull.
+  rewrite (lz_read_bytes_full data path svs dt Hv Hwf) in Hfull. injection Hfull as <-.
+  apply (lz_read_bytes_window data path svs dt); assumption.
+Qed.
